@@ -60,7 +60,9 @@ PATTR = " hsize=16 vsize=16 fps=25 pplanes=3"
 
 
 def sfd(fmt="s16"):
-    return {"A": "x:sound.%s.A.%s" % (fmt, SATTR), "B": "x:sound.%s.B.%s" % (fmt, SATTR)}
+    # one packed plane: the sample size is that of a stereo sample of the format
+    a = SATTR if fmt == "s16" else SATTR.replace("sample_size=4", "sample_size=8")
+    return {"A": "x:sound.%s.A.%s" % (fmt, a), "B": "x:sound.%s.B.%s" % (fmt, a)}
 
 
 PICFD = {"A": "x:pic.A." + PATTR, "B": "x:pic.B." + PATTR}
@@ -248,7 +250,7 @@ def build(ctx):
                                      exts=["pd_ext_c04.c"])
     flags = SHIM + ["-pthread", "-DC04_WITH_TS"]
     san = "asan"
-    if ctx.quick:
+    if ctx.quick and not os.environ.get("VERIF_C04_ASAN"):      # (debugging aid: sanitised quick build)
         # the sanitised -O1 -g build of ~115 files alone takes the whole quick budget on a loaded machine
         flags += ["-O0", "-g0"]
         san = None
@@ -948,6 +950,40 @@ def random_script(rng, T, n):
     return lines
 
 
+def directed_scripts(T):
+    """Situations that the random walk meets too rarely: a sink that answers requests from inside
+    register_request, a new output connected while buffers are held for a pending request, a
+    flow definition that changes the request but not the output definition."""
+    if T["cls"] == "thru" and T["name"] != "idem":
+        return []
+    pre = ["sink s1", "sink s2", "sink s3", "env fltag on"] + list(T["env"]) + list(T["alloc"])
+    out = lambda k: "out %s s%d" % (T["outp"], k)
+    can = T["data"] or T["cls"] == "thru"
+    n = [0]
+
+    def ins(k):
+        ls = []
+        for _ in range(k if can else 0):
+            n[0] += 1
+            ls += in_lines(T, n[0])
+        return ls or ["loop 1"]
+    rel = ["rel %s" % p for p in T["rel"]] + ["loop 4", "reset"]
+    A, B = setfd_line(T, "A"), setfd_line(T, "B")
+    res = []
+    n[0] = 0
+    res.append(pre + [out(1), A, "provall s1"] + ins(2) + [B] + ins(2) + ["reqmode s2 answer", out(2)] + ins(2) + ["provall s2", "loop 2"] + rel)
+    n[0] = 0
+    res.append(pre + ["reqmode s1 answer", out(1), A] + ins(2) + [B] + ins(1) + [out(2)] + ins(2) + ["provall s2"] + ins(1) + [out(1)] + ins(1) + rel)
+    n[0] = 0
+    res.append(pre + [A, "reqmode s1 answer", "reqmode s2 answer"] + ins(2) + [out(1)] + ins(1) + [B, out(2)] + ins(2) + [A] + ins(1) + rel)
+    # (never: a sink that answers at once connected by the probe, or a set_flow_def, while the pipe is
+    # draining what it held - the nested check() releases the self-reference twice in some 35 pipe types:
+    # the recorded finding of C01, which would only drown this check's verdict)
+    n[0] = 0
+    res.append(pre + [out(1), A] + ins(3) + ["reqmode s1 answer", "reqmode s2 answer", out(2), "loop 2", B, "provall s1", out(1)] + ins(2) + ["flush %s" % T["inp"], out(3), "reqmode s3 answer"] + ins(1) + rel)
+    return res
+
+
 # ------------------------------------------------------------------ self-check
 def selfcheck(ctx, binp):
     """Template sanity (tool check, no verdict): every type must allocate; a type that refuses the
@@ -1096,6 +1132,8 @@ def run(ctx):
         nr = (6 if ctx.quick else 200)
         for k in range(nr):
             xs.append(Exec(T, random_script(rng, T, 10 + rng.below(50)), None, None, None, "random script"))
+        for ls in directed_scripts(T):
+            xs.append(Exec(T, ls, None, None, None, "directed script"))
         crashes = run_batch(ctx, binp, xs)
         for x, rc, err in crashes:
             report_crash(ctx, binp, x, rc, err)
